@@ -1,0 +1,65 @@
+//! Verification seam (cargo feature `gohla_pie_verif`, off by default): control over the hash seeds of all hash-based
+//! containers that are created through `Default`, so that a simulator can make hash iteration order a function of a
+//! seed. With the feature off this module does not exist and nothing changes.
+use std::cell::Cell;
+use std::collections::hash_map::{DefaultHasher, RandomState};
+use std::hash::{BuildHasher, Hasher};
+
+thread_local! {
+  static SEED: Cell<Option<u64>> = const { Cell::new(None) };
+  static COUNTER: Cell<u64> = const { Cell::new(0) };
+}
+
+/// Sets the hash seed for all containers created afterwards on this thread, and resets the per-thread instance
+/// counter. `None` restores OS-random seeds (the behaviour of `std`).
+pub fn set_hash_seed(seed: Option<u64>) {
+  SEED.with(|s| s.set(seed));
+  COUNTER.with(|c| c.set(0));
+}
+
+/// Gets the hash seed that is currently set on this thread.
+pub fn hash_seed() -> Option<u64> { SEED.with(|s| s.get()) }
+
+/// Hash state that is keyed from the thread-local seed, or OS-random when no seed is set.
+#[derive(Clone)]
+pub enum SeededState {
+  /// Deterministic key, derived from the seed and the number of states created before on this thread.
+  Seeded(u64),
+  /// OS-random key (the behaviour of `std`).
+  Random(RandomState),
+}
+
+impl Default for SeededState {
+  fn default() -> Self {
+    match SEED.with(|s| s.get()) {
+      Some(seed) => {
+        let count = COUNTER.with(|c| {
+          let v = c.get();
+          c.set(v.wrapping_add(1));
+          v
+        });
+        SeededState::Seeded(seed ^ count.wrapping_mul(0x9E37_79B9_7F4A_7C15))
+      }
+      None => SeededState::Random(RandomState::new()),
+    }
+  }
+}
+
+impl BuildHasher for SeededState {
+  type Hasher = DefaultHasher;
+  fn build_hasher(&self) -> DefaultHasher {
+    match self {
+      SeededState::Seeded(key) => {
+        let mut hasher = DefaultHasher::new();
+        hasher.write_u64(*key);
+        hasher
+      }
+      SeededState::Random(random_state) => random_state.build_hasher(),
+    }
+  }
+}
+
+/// `HashMap` that defaults to [`SeededState`].
+pub type HashMap<K, V, S = SeededState> = std::collections::HashMap<K, V, S>;
+/// `HashSet` that defaults to [`SeededState`].
+pub type HashSet<T, S = SeededState> = std::collections::HashSet<T, S>;
